@@ -37,7 +37,7 @@ theorem Val.wf_heap (b : Bytes) : (Val.atom b false).wf = true := rfl
 theorem wf_bool (b : Bool) : (if b then Val.one else Val.nil).wf = true := by
   cases b <;> decide
 
-theorem argList_wf {v : Val} (h : v.wf = true) : ∀ a ∈ argList v, a.wf = true := by
+theorem argList_all_wf {v : Val} (h : v.wf = true) : ∀ a ∈ argList v, a.wf = true := by
   induction v with
   | atom b i => intro a ha; simp [argList] at ha
   | pair l r _ ihr =>
@@ -207,20 +207,20 @@ theorem getArgs3_clean {args : Val} {name : String} {e : Err} (h : getArgs3 args
     Err.isInternal e = false := by
   rcases getArgs3_spec args name with ⟨a, b, c, h', _⟩ | ⟨s, h'⟩ <;> rw [h'] at h <;> cases h; rfl
 
-theorem getArgs1_wf {args : Val} {name : String} {a : Val} (hw : args.wf = true)
+theorem getArgs1_args_wf {args : Val} {name : String} {a : Val} (hw : args.wf = true)
     (h : getArgs1 args name = .ok a) : a.wf = true := by
   rcases getArgs1_spec args name with ⟨a', h', hl⟩ | ⟨s, h'⟩ <;> rw [h'] at h <;> cases h
-  exact argList_wf hw _ (by rw [hl]; simp)
+  exact argList_all_wf hw _ (by rw [hl]; simp)
 
-theorem getArgs2_wf {args : Val} {name : String} {a b : Val} (hw : args.wf = true)
+theorem getArgs2_args_wf {args : Val} {name : String} {a b : Val} (hw : args.wf = true)
     (h : getArgs2 args name = .ok (a, b)) : a.wf = true ∧ b.wf = true := by
   rcases getArgs2_spec args name with ⟨a', b', h', hl⟩ | ⟨s, h'⟩ <;> rw [h'] at h <;> cases h
-  exact ⟨argList_wf hw _ (by rw [hl]; simp), argList_wf hw _ (by rw [hl]; simp)⟩
+  exact ⟨argList_all_wf hw _ (by rw [hl]; simp), argList_all_wf hw _ (by rw [hl]; simp)⟩
 
-theorem getArgs3_wf {args : Val} {name : String} {a b c : Val} (hw : args.wf = true)
+theorem getArgs3_args_wf {args : Val} {name : String} {a b c : Val} (hw : args.wf = true)
     (h : getArgs3 args name = .ok (a, b, c)) : a.wf = true ∧ b.wf = true ∧ c.wf = true := by
   rcases getArgs3_spec args name with ⟨a', b', c', h', hl⟩ | ⟨s, h'⟩ <;> rw [h'] at h <;> cases h
-  exact ⟨argList_wf hw _ (by rw [hl]; simp), argList_wf hw _ (by rw [hl]; simp), argList_wf hw _ (by rw [hl]; simp)⟩
+  exact ⟨argList_all_wf hw _ (by rw [hl]; simp), argList_all_wf hw _ (by rw [hl]; simp), argList_all_wf hw _ (by rw [hl]; simp)⟩
 
 theorem getVarargs_clean {n : Nat} {args : Val} {name : String} {e : Err} (h : getVarargs n args name = .error e) :
     Err.isInternal e = false := by
@@ -274,11 +274,11 @@ theorem unknownMul_clean {nm : Bool} {m d : Nat} {l : List Val} {cost l0 : Nat} 
   cases nm
   · induction l, cost, l0, fi using unknownMul.induct (nm := false) (maxCost := m) (sqDiv := d) <;>
       intro h <;> rename_i ih <;> loop_prep <;>
-      simp only [unknownMul_nil, unknownMul_cons, *, ↓reduceIte, Bool.false_eq_true] at h <;>
+      simp only [unknownMul_nil_eq, unknownMul_cons_eq, *, ↓reduceIte, Bool.false_eq_true] at h <;>
       loop_clean_core ih h
   · induction l, cost, l0, fi using unknownMul.induct (nm := true) (maxCost := m) (sqDiv := d) <;>
       intro h <;> rename_i ih <;> loop_prep <;>
-      simp only [unknownMul_nil, unknownMul_cons, *, ↓reduceIte, Bool.false_eq_true] at h <;>
+      simp only [unknownMul_nil_eq, unknownMul_cons_eq, *, ↓reduceIte, Bool.false_eq_true] at h <;>
       loop_clean_core ih h
 
 theorem addFast_clean {nm : Bool} {cpa cpb m : Nat} {l : List Val} {cost total : Nat} {e : Err}
